@@ -20,9 +20,9 @@
 (***************************************************************************)
 EXTENDS CalFlow, TraceCommon
 
-VARIABLES st, ref, solvedOk, refOk, l
+VARIABLES st, ref, solvedOk, calOk, refOk, l
 
-tvars == <<st, ref, solvedOk, refOk, l>>
+tvars == <<st, ref, solvedOk, calOk, refOk, l>>
 
 SeqToSet(s) == {s[i] : i \in 1..Len(s)}
 
@@ -59,16 +59,11 @@ CallbackOK(ev, o) ==
 
 Matches(ev, o) == (ev.ok = 1) = o.ok /\ ev.err = o.err
 
-(* equation counts per system in the order of SystemsOf *)
-NeqOf(s, std) ==
-    IF ColSys(s.t) THEN [k \in 1..s.c |-> EqCount(s.t, s.r, s.c, std, k)]
-    ELSE <<EqCount(s.t, s.r, s.c, std, 0)>>
-
-TInit == st = NoState /\ ref = NoState /\ solvedOk = FALSE /\ refOk = FALSE /\ l = 1
+TInit == st = NoState /\ ref = NoState /\ solvedOk = FALSE /\ calOk = FALSE /\ refOk = FALSE /\ l = 1
 
 TReset ==
     /\ TraceLog[l].e = "Reset"
-    /\ st' = NoState /\ ref' = NoState /\ solvedOk' = FALSE /\ refOk' = FALSE
+    /\ st' = NoState /\ ref' = NoState /\ solvedOk' = FALSE /\ calOk' = FALSE /\ refOk' = FALSE
 
 TCall ==
     LET ev == TraceLog[l]
@@ -83,25 +78,27 @@ TCall ==
                         <<l, ev.e, "cb", {<<o.ok, o.cat>> : o \in O}>>)
              /\ \* harness oracle cross-check on accepted standards
                 (ev.e = "Add" /\ ev.ok = 1) =>
-                   /\ Explain(ev.neq = NeqOf(st, op.std),
-                              <<l, "Add", "neq", NeqOf(st, op.std)>>)
-                   /\ Explain({<<x[1], x[2]>> : x \in SeqToSet(ev.leak)} =
-                                 LeakCells(st.t, st.r, st.c, op.std),
-                              <<l, "Add", "leak", LeakCells(st.t, st.r, st.c, op.std)>>)
-             /\ \* numeric clause of C01 / C20: a determining set of standards
-                \* solves ...
+                   LET o == CHOOSE o \in O : Matches(ev, o)
+                   IN /\ Explain(ev.neq = o.info.neq, <<l, "Add", "neq", o.info.neq>>)
+                      /\ Explain({<<x[1], x[2]>> : x \in SeqToSet(ev.leak)} = o.info.leak,
+                                 <<l, "Add", "leak", o.info.leak>>)
+             /\ \* the cells the harness counts as observed are CalEq's
                 (ev.e = "Solve" /\ ev.ok = 1) =>
-                   Explain({<<x[1], x[2]>> : x \in SeqToSet(ev.leakobs)} =
-                              LeakObserved(st.t, st.r, st.c, st.stds),
-                           <<l, "Solve", "leakobs",
-                             LeakObserved(st.t, st.r, st.c, st.stds)>>)
+                   Explain({<<x[1], x[2]>> : x \in SeqToSet(ev.leakobs)} = st.leak,
+                           <<l, "Solve", "leakobs", st.leak>>)
              /\ \* ... and corrects an independent device measurement
-                (ev.e = "Apply" /\ ev.ok = 1 /\ solvedOk) =>
+                (ev.e = "Apply" /\ calOk /\ ApplyAccepts(st.r, st.c)) =>
+                   Explain(ev.ok = 1, <<l, "Apply", "applies", 1>>)
+             /\ (ev.e = "Apply" /\ ev.ok = 1 /\ calOk) =>
                    Explain(ev.x.recovered = 1, <<l, "Apply", "recovered", 1>>)
              /\ LET o == CHOOSE o \in O : Matches(ev, o)
                 IN /\ st' = o.st
                    /\ ref' = IF ev.e = "Alloc" /\ st.alive THEN st ELSE ref
-                   /\ refOk' = IF ev.e = "Alloc" /\ st.alive THEN solvedOk ELSE refOk
+                   /\ refOk' = IF ev.e = "Alloc" /\ st.alive THEN calOk ELSE refOk
+                   /\ calOk' =
+                        CASE ev.e = "AddCal" /\ ev.ok = 1 -> solvedOk
+                          [] ev.e = "Alloc" -> FALSE
+                          [] OTHER -> calOk
                    /\ solvedOk' =
                         CASE ev.e = "Solve" /\ ev.ok = 1 -> (ev.ident = "yes")
                           [] ev.e = "Alloc" -> FALSE
@@ -113,8 +110,8 @@ TSaveEq ==
     LET ev == TraceLog[l]
     IN /\ ev.e = "SaveEq"
        /\ Explain(ev.ok = 1, <<l, "SaveEq", "ok", 1>>)
-       /\ solvedOk => Explain(ev.x.satisfies = 1, <<l, "SaveEq", "satisfies", 1>>)
-       /\ UNCHANGED <<st, ref, solvedOk, refOk>>
+       /\ calOk => Explain(ev.x.satisfies = 1, <<l, "SaveEq", "satisfies", 1>>)
+       /\ UNCHANGED <<st, ref, solvedOk, calOk, refOk>>
 
 -----------------------------------------------------------------------------
 (* C17: the relation claimed between the reference life (ref) and the      *)
@@ -123,9 +120,12 @@ TSaveEq ==
 SameKnowledge(a, b, s1, s2) ==
     /\ SKnow(Ports(a.r, a.c), s1) = SKnow(Ports(b.r, b.c), s2)
 
+(* equal as bags *)
 IsPermutationOf(s1, s2) ==
     /\ Len(s1) = Len(s2)
-    /\ \E f \in Permutations(1..Len(s1)) : \A i \in 1..Len(s1) : s2[i] = s1[f[i]]
+    /\ \A i \in 1..Len(s1) :
+          Cardinality({j \in 1..Len(s1) : s1[j] = s1[i]}) =
+          Cardinality({j \in 1..Len(s2) : s2[j] = s1[i]})
 
 SameShape(a, b) == a.t = b.t /\ a.r = b.r /\ a.c = b.c
 
@@ -163,23 +163,23 @@ TCompare ==
     IN /\ ev.e = "Compare"
        /\ Explain(ref.alive /\ st.alive /\ Related(ev.rel, ev),
                   <<l, "Compare", "related", ev.rel>>)
-       /\ (refOk /\ solvedOk) =>
+       /\ (refOk /\ calOk) =>
              /\ Explain(ev.both = 1, <<l, "Compare", "both", 1>>)
              /\ Explain(ev.x.same = 1, <<l, "Compare", "same", 1>>)
-       /\ UNCHANGED <<st, ref, solvedOk, refOk>>
+       /\ UNCHANGED <<st, ref, solvedOk, calOk, refOk>>
 
 (* a calibration of another life added to the same vnacal_t: not part of  *)
 (* this life's state                                                      *)
 TNote ==
     /\ TraceLog[l].e = "Unrelated"
-    /\ UNCHANGED <<st, ref, solvedOk, refOk>>
+    /\ UNCHANGED <<st, ref, solvedOk, calOk, refOk>>
 
 (* everything was freed: no allocation made inside the library is live *)
 TEnd ==
     LET ev == TraceLog[l]
     IN /\ ev.e = "End"
        /\ Explain(ev.live = 0, <<l, "End", "live", 0>>)
-       /\ st' = NoState /\ ref' = NoState /\ solvedOk' = FALSE /\ refOk' = FALSE
+       /\ st' = NoState /\ ref' = NoState /\ solvedOk' = FALSE /\ calOk' = FALSE /\ refOk' = FALSE
 
 TNext ==
     /\ l <= Len(TraceLog)
